@@ -25,7 +25,18 @@ class HarnessError(Exception):
     pass
 
 
-class _FixedDateTime(_dt.datetime):
+class _ClockMeta(type):
+    """The stand-ins only pin the clock: for isinstance / issubclass they ARE the real classes
+    (library code that asks `isinstance(value, datetime)` must get the production answer)."""
+
+    def __instancecheck__(cls, obj):
+        return isinstance(obj, cls.__mro__[1])
+
+    def __subclasscheck__(cls, sub):
+        return issubclass(sub, cls.__mro__[1])
+
+
+class _FixedDateTime(_dt.datetime, metaclass=_ClockMeta):
     @classmethod
     def utcnow(cls):
         return FIX_NOW
@@ -35,7 +46,7 @@ class _FixedDateTime(_dt.datetime):
         return FIX_NOW
 
 
-class _FixedDate(_dt.date):
+class _FixedDate(_dt.date, metaclass=_ClockMeta):
     @classmethod
     def today(cls):
         return FIX_TODAY
